@@ -2,7 +2,7 @@
 from sched import *
 
 PROP = "C01"
-THEOREMS = [tuple(x) for x in json.load(open(os.path.join(VERIF, "lib", "pins", PROP + ".json")))]
+THEOREMS = ["C01", "C01Loaded"]
 
 
 def killed_producers(run, har):
